@@ -425,6 +425,60 @@ def run_krome_formats(tier):
 
 
 
+def run_user_markers(_):
+    """process tags declared by the user (pseudo_elements=[...]) are markers like the built-in ones: a line that
+    carries one decodes to the same reaction without it"""
+    from ..harness.render import reset_globals, quiet
+
+    reset_globals()
+    from naunet.network import Network
+    from naunet.species import Species
+
+    from ..harness.render import scratch
+
+    tmp = Path(tempfile.mkdtemp(dir=scratch()))
+    viols = []
+    n = 0
+    user = ["UVPHOT", "H2FORM", "ER"]
+    lines = {
+        "uclchem": [("H,H,H2FORM,H2,NAN,NAN,NAN,1.0,0.0,0.0,10,41000", ["H", "H"], ["H2"]), ("CO,UVPHOT,NAN,C,O,NAN,NAN,1e-10,0.0,2.5,10,41000", ["CO"], ["C", "O"])],
+        "kida": [(F.enc_kida(F.AReaction(["CO"], ["C", "O"], 1e-10, 0.0, 2.5, 10, 300, 7, 3, "UVPHOT")), ["CO"], ["C", "O"])],
+        "umist": [(F.enc_umist(F.AReaction(["H", "H"], ["H2"], 1e-17, 0.0, 0.0, 10.0, 300.0, 9, "NN", None)).replace(":H:H:", ":H:H:", 1), ["H", "H"], ["H2"]),
+                  (F.enc_umist(F.AReaction(["CO"], ["C", "O"], 1e-10, 0.0, 2.5, 10.0, 300.0, 11, "NN", "ER")), ["CO"], ["C", "O"])],
+        "krome": [("@format:idx,R,R,P,P,rate", None, None), ("3,CO,UVPHOT,C,O,1d-10", ["CO"], ["C", "O"])],
+    }
+    with quiet():
+        for fmt, items in lines.items():
+            for placement in ("constructor", "global"):
+                reset_globals()
+                if placement == "constructor":
+                    net = Network(elements=list(Species.default_elements), pseudo_elements=list(Species.default_pseudoelements) + user)
+                else:
+                    Species.set_known_elements(list(Species.default_elements))
+                    Species.set_known_pseudoelements(list(Species.default_pseudoelements) + user)
+                    net = Network()
+                case = {"fmt": fmt, "usermarkers": True}
+                f = tmp / f"um.{fmt}"
+                f.write_text("\n".join(ln for ln, _r, _p in items) + "\n")
+                data = [(ln, r, p_) for ln, r, p_ in items if r is not None]
+                n += len(data)
+                try:
+                    net.add_reaction_from_file(str(f), fmt)
+                except Exception as e:
+                    viols.append((f"C07:user-marker:raises:{fmt}", f"{fmt} file {[x[0] for x in items]} with user markers {user} ({placement}) raises {e!r}", case))
+                    continue
+                if len(net.reaction_list) != len(data):
+                    viols.append((f"C07:user-marker:count:{fmt}", f"{fmt}: {len(data)} data lines -> {len(net.reaction_list)} reactions", case))
+                    continue
+                for (ln, r, p_), reac in zip(data, net.reaction_list):
+                    got = observe(reac)
+                    if got["reactants"] != sorted(r) or got["products"] != sorted(p_):
+                        viols.append((f"C07:user-marker:as-species:{fmt}", f"{fmt} line {ln!r} with pseudo-elements {user} ({placement}): decoded {got['reactants']} -> {got['products']}, expected {sorted(r)} -> {sorted(p_)}", case))
+                        break
+        shutil.rmtree(tmp, ignore_errors=True)
+    return n, viols
+
+
 def umist_multirange(ctx):
     """UMIST lines with NE = 2 carry two (alpha,beta,gamma,Tl,Tu) sets.  Kept separate from the
     single-range oracle: the statement also says 'one reaction per data line'."""
@@ -459,6 +513,9 @@ def run(ctx):
     (nk, nkc, viols), = list(ctx.pmap(run_krome_formats, [ctx.tier]))
     ctx.absorb(viols)
     nc += nkc
+    (num, viols), = list(ctx.pmap(run_user_markers, [0]))
+    ctx.absorb(viols)
+    nc += num
     ctx.assumptions += [
         "KROME @format directives: keys are case-insensitive (KROME's own reader lower-cases them); a directive governs the lines after it until the next directive; temperature limits may carry KROME's operator prefixes (>, <, .GE., .LT. ...) and Fortran d-exponents; a missing idx column leaves the index at -1, missing Tmin/Tmax columns leave the window open",
         "lines are produced by my own per-format encoders (mc/ref/formats.py) following the published column layouts; the expected values are the abstract reaction that was encoded (after the format's own printed rounding)",
@@ -483,6 +540,8 @@ def replay(ctx, case):
     fmt = case["fmt"]
     if case.get("multirange"):
         umist_multirange(ctx)
+    elif case.get("usermarkers"):
+        ctx.absorb(run_user_markers(0)[1])
     elif case.get("kromeformats"):
         ctx.absorb(run_krome_formats("thorough")[2])
     elif "arrangement" in case:
